@@ -93,10 +93,204 @@ def _callee_path(t):
     return c.get('res') or c.get('fn')
 
 
+def _split_args(ty):
+    """generic arguments of `Head<A, B>` (top level commas only)"""
+    i = ty.find('<')
+    if i < 0 or not ty.endswith('>'):
+        return []
+    out, depth, cur = [], 0, ''
+    for ch in ty[i + 1:-1]:
+        if ch in '<([':
+            depth += 1
+        elif ch in '>)]':
+            depth -= 1
+        if ch == ',' and depth == 0:
+            out.append(cur.strip())
+            cur = ''
+        else:
+            cur += ch
+    if cur.strip():
+        out.append(cur.strip())
+    return out
+
+
+def _sg(path):
+    """strip generic arguments"""
+    out, depth = '', 0
+    for ch in path:
+        if ch == '<':
+            depth += 1
+        elif ch == '>':
+            depth -= 1
+        elif depth == 0:
+            out += ch
+    out = out.replace('::::', '::')
+    return out[:-2] if out.endswith('::') else out
+
+
+# combinator -> (scrutinee kind, arms): each arm maps a variant to what becomes of it
+#   'call'  : dest = f(payload)            'wrap:V' : dest = V(f(payload))
+#   'keep'  : dest = the scrutinee's own variant with its payload (Some(x) / Ok(x) / Err(e) / None)
+#   'payload': dest = payload              'rewrap:V': dest = V(payload)      'call0': dest = f()    'wrap0:V': dest = V(f())
+COMBINATORS = {
+    'core::option::Option::map': ('Option', {'Some': 'wrap:Some', 'None': 'none'}),
+    'core::option::Option::and_then': ('Option', {'Some': 'call', 'None': 'none'}),
+    'core::option::Option::unwrap_or_else': ('Option', {'Some': 'payload', 'None': 'call0'}),
+    'core::option::Option::ok_or_else': ('Option', {'Some': 'rewrap:Ok', 'None': 'wrap0:Err'}),
+    'core::result::Result::map': ('Result', {'Ok': 'wrap:Ok', 'Err': 'rewrap:Err'}),
+    'core::result::Result::and_then': ('Result', {'Ok': 'call', 'Err': 'rewrap:Err'}),
+    'core::result::Result::map_err': ('Result', {'Ok': 'rewrap:Ok', 'Err': 'wrap:Err'}),
+    'core::result::Result::unwrap_or_else': ('Result', {'Ok': 'payload', 'Err': 'call'}),
+}
+VIDX = {'None': 0, 'Some': 1, 'Ok': 0, 'Err': 1}
+ADT = {'None': 'core::option::Option', 'Some': 'core::option::Option', 'Ok': 'core::result::Result', 'Err': 'core::result::Result'}
+
+
+def _splice(body, b, callee, arg_rvs, dest, target, sp, exp):
+    """append the callee's blocks to `body`, entered from block b (its terminator becomes a goto), parameters assigned from the
+    rvalues arg_rvs, `return` turned into `dest = _0; goto target`. Returns (local offset, block offset)."""
+    loff = len(body['locals'])
+    boff = len(body['blocks'])
+    body['locals'] = body['locals'] + callee['locals']
+    for cb in callee['blocks']:
+        _shift_block(cb, loff, boff)
+    for ai, rv in enumerate(arg_rvs):
+        ty = callee['locals'][ai + 1]
+        b['s'].append({'k': 'assign', 'lhs': {'l': loff + ai + 1, 'p': [], 'ty': ty}, 'rv': rv, 'sp': sp, 'exp': exp})
+    ret_ty = callee['locals'][0]
+    for cb in callee['blocks']:
+        if cb['t']['k'] == 'return':
+            if dest is not None:
+                cb['s'].append({'k': 'assign', 'lhs': dest, 'rv': {'k': 'use', 'o': {'m': {'l': loff, 'p': [], 'ty': ret_ty}}}, 'sp': sp, 'exp': exp})
+            cb['t'] = {'k': 'goto', 't': target, 'sp': sp}
+    b['t'] = {'k': 'goto', 't': boff, 'sp': sp}
+    body['blocks'] = body['blocks'] + callee['blocks']
+    for n_, pl in callee.get('dbg', []):
+        pl2 = copy.deepcopy(pl)
+        _shift_place(pl2, loff)
+        if pl2['l'] > loff + callee['argc']:
+            body['dbg'].append([n_, pl2])
+    return loff, boff
+
+
+def expand_combinators(records, strip):
+    """`opt.map(|x| ..)`, `res.map_err(|e| ..)`, `opt.unwrap_or_else(|| ..)` ... whose closure did not exist on the reviewed tree are
+    rewritten into the `match` they abbreviate, with the closure body in the arm: code moved from an `if let` / `match` arm into a
+    combinator closure is judged where it came from. Closures of the reviewed tree are left alone."""
+    known = known_functions()
+    by_path = {}
+    for r in records:
+        by_path.setdefault(strip(r['path']), []).append(r)
+    log = {}
+
+    def new_local(body, ty):
+        body['locals'] = body['locals'] + [ty]
+        return len(body['locals']) - 1
+
+    def plain_local(o):
+        pl = o.get('m') or o.get('c')
+        if pl is None or pl.get('p'):
+            return None
+        return pl
+
+    for r in records:
+        if r.get('stage') == 'promoted':
+            continue
+        i = 0
+        guard = 0
+        while i < len(r['blocks']) and guard < 64:
+            b = r['blocks'][i]
+            t = b['t']
+            i += 1
+            if t['k'] != 'call' or b.get('cleanup') or t.get('t') is None:
+                continue
+            cp = _callee_path(t)
+            comb = COMBINATORS.get(_sg(cp)) if cp else None
+            if comb is None or len(t['args']) != 2:
+                continue
+            scr, clo = plain_local(t['args'][0]), plain_local(t['args'][1])
+            if scr is None or clo is None:
+                continue
+            cty = r['locals'][clo['l']]
+            if not (isinstance(cty, str) and cty.startswith('closure:')):
+                continue
+            cpath = strip(cty[len('closure:'):])
+            if cpath in known or len(by_path.get(cpath, [])) != 1:
+                continue
+            crec = by_path[cpath][0]
+            if crec.get('coroutine') or len(crec['blocks']) > 400:
+                continue
+            kind, arms = comb
+            need = {2 if (w == 'call' or w.startswith('wrap:')) else 1 for w in arms.values() if w in ('call', 'call0') or w.startswith(('wrap:', 'wrap0:'))}
+            if need != {crec['argc']}:
+                continue
+            sty = r['locals'][scr['l']]
+            targs = _split_args(sty)
+            if (kind == 'Option' and len(targs) != 1) or (kind == 'Result' and len(targs) != 2):
+                continue
+            payload_ty = {'Some': targs[0], 'Ok': targs[0], 'Err': targs[-1]}
+            sp, exp = t.get('sp'), t.get('exp')
+            dest, target = t['dest'], t['t']
+            dty = dest.get('ty')
+            # scrutinee discriminant and switch
+            dl = new_local(r, 'isize')
+            b['s'].append({'k': 'assign', 'lhs': {'l': dl, 'p': [], 'ty': 'isize'}, 'rv': {'k': 'discr', 'p': {'l': scr['l'], 'p': [], 'ty': sty}}, 'sp': sp, 'exp': exp})
+            arm_blocks = {}
+            for vn in arms:
+                r['blocks'].append({'s': [], 't': {'k': 'goto', 't': target, 'sp': sp}, 'cleanup': False})
+                arm_blocks[vn] = len(r['blocks']) - 1
+            r['blocks'].append({'s': [], 't': {'k': 'unreachable', 'sp': sp}, 'cleanup': False})
+            unreach = len(r['blocks']) - 1
+            b['t'] = {'k': 'switch', 'd': {'m': {'l': dl, 'p': [], 'ty': 'isize'}}, 'dty': 'isize', 'ts': [[VIDX[vn], bi] for vn, bi in sorted(arm_blocks.items(), key=lambda x: VIDX[x[0]])], 'o': unreach, 'sp': sp}
+
+            def agg(vn, ops):
+                return {'k': 'agg', 'ak': 'adt', 'adt': ADT[vn], 'variant': vn, 'vidx': VIDX[vn], 'is_enum': True, 'fields': ['0'] if ops else [], 'ops': ops}
+
+            def payload_place(vn):
+                return {'l': scr['l'], 'p': [{'dc': VIDX[vn], 'n': vn}, {'f': 0, 'n': '0', 'adt': ADT[vn], 'ty': payload_ty[vn]}], 'ty': payload_ty[vn]}
+            env_ty = crec['locals'][1] if len(crec['locals']) > 1 else ''
+            if isinstance(env_ty, str) and env_ty.startswith('&'):
+                env_rv = {'k': 'ref', 'mut': env_ty.startswith('&mut'), 'p': {'l': clo['l'], 'p': [], 'ty': cty}}
+            else:
+                env_rv = {'k': 'use', 'o': {'m': {'l': clo['l'], 'p': [], 'ty': cty}}}
+            ok = True
+            for vn, what in arms.items():
+                ab = r['blocks'][arm_blocks[vn]]
+                if what == 'none':
+                    ab['s'].append({'k': 'assign', 'lhs': dest, 'rv': agg('None', []), 'sp': sp, 'exp': exp})
+                elif what == 'payload':
+                    ab['s'].append({'k': 'assign', 'lhs': dest, 'rv': {'k': 'use', 'o': {'m': payload_place(vn)}}, 'sp': sp, 'exp': exp})
+                elif what.startswith('rewrap:'):
+                    ab['s'].append({'k': 'assign', 'lhs': dest, 'rv': agg(what[7:], [{'m': payload_place(vn)}]), 'sp': sp, 'exp': exp})
+                else:
+                    callee = copy.deepcopy(crec)
+                    with_arg = what in ('call',) or what.startswith('wrap:')
+                    if callee['argc'] != (2 if with_arg else 1):
+                        ok = False
+                        break
+                    rvs = [env_rv] + ([{'k': 'use', 'o': {'m': payload_place(vn)}}] if with_arg else [])
+                    if what in ('call', 'call0'):
+                        _splice(r, ab, callee, rvs, dest, target, sp, exp)
+                    else:
+                        wv = what.split(':')[1]
+                        # closure result into a fresh local, then wrapped
+                        rl = new_local(r, callee['locals'][0])
+                        r['blocks'].append({'s': [{'k': 'assign', 'lhs': dest, 'rv': agg(wv, [{'m': {'l': rl, 'p': [], 'ty': callee['locals'][0]}}]), 'sp': sp, 'exp': exp}],
+                                            't': {'k': 'goto', 't': target, 'sp': sp}, 'cleanup': False})
+                        wrap_bb = len(r['blocks']) - 1
+                        _splice(r, ab, callee, rvs, {'l': rl, 'p': [], 'ty': callee['locals'][0]}, wrap_bb, sp, exp)
+            if not ok:
+                continue
+            log.setdefault(strip(r['path']), []).append(cpath)
+            guard += 1
+    return records, log
+
+
 def inline_unknown(records, strip):
     """records: list of body dicts of one configuration (all crates). Returns (records, log). `strip` maps a raw path to
     the stripped path used as key."""
     known = known_functions()
+    records, clog = expand_combinators(records, strip)
     by_path = {}
     for r in records:
         by_path.setdefault(strip(r['path']), []).append(r)
@@ -116,8 +310,8 @@ def inline_unknown(records, strip):
             continue
         unknown[p] = r
     if not unknown:
-        return records, {}
-    log = {}
+        return records, clog
+    log = dict(clog)
     inlined_everywhere = set(unknown)
 
     def expand(body, depth, chain):
